@@ -200,6 +200,12 @@ def check_case(ctx, tokens, comp, doc, texts=None, style=None):
     style = style or r.choice(["instance", "instance", "rules-recompiled", "renamed-on-the-instance", "class-attributes-reassigned", "class-attributes-reassigned"] + ["subclass"] * 6)
     env = make_env(tokens, style)
     ctx.cell("environment_construction", style)
+    if r.random() < 0.5:
+        # a few refused compiles first (stray default identifiers, control characters, unbalanced brackets): what an
+        # error path leaves behind in the environment must not change how valid queries read afterwards
+        for bad in (tokens["root"] + ".c[?\x01 == 1]", tokens["root"] + ".c[?@ == 1]" if tokens["self"] != "@" else tokens["root"] + ".c[?\x02]", "\x03", tokens["root"] + "[", tokens["root"] + "[?" + tokens["self"] + ".a ==]", "$" if tokens["root"] != "$" else "\x04"):
+            impl.call(env.compile, bad)
+        ctx.count("refused_compiles_before_use")
     seed = r.random()
     import random
 
